@@ -5,14 +5,14 @@ open Node
 /-- an expression-bodied arrow: the injected `{ return e }` is taken away again — also after the block
     visitor has worked on that injected block -/
 theorem arrow_VC (ps : List Node) (b : Node) (at' : String) (sp : Span) (hs : srcOk (.arrow ps b at' sp) = true)
-    (lo hi : Nat) : VC lo hi (.arrow ps (.block [returnStmt b] Span.dummy) at' sp) (.arrow ps b at' sp) := by
+    (lo hi : Nat) : EVC lo hi (.arrow ps (.block [returnStmt b] Span.dummy) at' sp) (.arrow ps b at' sp) := by
   have hsk := srcOk_kids hs
   have hps : ∀ k ∈ ps, srcOk k = true := fun k hk => hsk k (by simp [kids, hk])
   have hb : srcOk b = true := hsk b (by simp [kids])
   refine ⟨?_, Or.inl rfl, by simp [Deep], rfl, by simp [Node.isIdent]⟩
   intro m hbr σ
   obtain ⟨ps'', body'', rfl, hps'', hbody⟩ := hbr.arrow_inv
-  obtain ⟨Xs, Δ1, e1, s1, w1⟩ := eraseL_KL (VC.srcL lo hi ps hps) ps'' hps'' σ
+  obtain ⟨Xs, Δ1, e1, s1, w1⟩ := eraseL_KL (EVC.srcL lo hi ps hps) ps'' hps'' σ
   have hret : ∀ σ', erase σ' (returnStmt b) = (returnStmt b, σ') := fun σ' => erase_src _ (srcOk_returnStmt hb) σ'
   have hli : injectedLetAt Span.dummy [returnStmt b] = none :=
     injectedLetAt_src _ _ (by intro k hk; simp only [List.mem_singleton] at hk; subst hk; exact srcOk_returnStmt hb)
@@ -56,11 +56,11 @@ theorem arrow_VC (ps : List Node) (b : Node) (at' : String) (sp : Span) (hs : sr
   rw [ebd]
   simp [arrowOut, dummy_isDummy]
 
-theorem KL_one {lo hi : Nat} {a' a : Node} (h : KL lo hi [a'] [a]) : VC lo hi a' a := by
+theorem KL_one {lo hi : Nat} {a' a : Node} (h : KL lo hi [a'] [a]) : EVC lo hi a' a := by
   simp only [KL, Forall2] at h; exact h.1
 
 theorem KL_cons {lo hi : Nat} {a' a : Node} {as' as : List Node} (h : KL lo hi (a' :: as') (a :: as)) :
-    VC lo hi a' a ∧ KL lo hi as' as := by
+    EVC lo hi a' a ∧ KL lo hi as' as := by
   simp only [KL, Forall2] at h; exact h
 
 theorem KL_lists_two {lo hi : Nat} {ks' : List Node} {a b : Node} (h : KL lo hi ks' [a, b]) :
